@@ -15,6 +15,8 @@ def run(ctx, res):
     tbl.r5_closure(F, res, res.rule("T-R5", "LR(1) closure lookahead rule", floor=3))
     tbl.r6_successors(F, res, res.rule("T-R6", "successor states", floor=1))
     tbl.r7_registration(F, res, res.rule("T-R7", "state search and registration", floor=2))
+    tbl.r8_merge(F, res, res.rule("T-R8", "state merging (LALR and the Pager split): core-equal, guarded, all-or-nothing, every reducing item "
+                                  "tested against every other item (shared with C04: a wrong merge loses or invents lookaheads, i.e. sentences)", floor=4))
     tbl.r9_propagation(F, res, res.rule("T-R9", "lookahead propagation links, direction and source", floor=5))
     tbl.r13_lr_rejects(F, res, res.rule("T-R13", "LR rejects unresolved conflicts", floor=2))
     # driver: the LR loop does what the cell says (shared with C02-R3); reductions use every lookahead (C02-R1)
